@@ -1,6 +1,7 @@
 // C18 debuggee: one source, three link modes selected by --cfg
 //   plain    no library at all                                   (built PIE, non-PIE, static-pie, static)
 //   startup  liba linked at startup (DT_NEEDED, rpath $ORIGIN)    (built PIE and non-PIE)
+//   startup2 liba AND libb linked at startup
 //   dl       libraries loaded by dlopen/dlclose following a script given as argv[1]
 // Script (dl mode), one letter per operation, executed left to right:
 //   A / B   dlopen liba / libb (RTLD_NOW|RTLD_LOCAL)       a / b   dlclose the most recent handle of liba / libb
@@ -8,6 +9,7 @@
 //   5       call c18a_via(callback in the executable)
 //   .       c18_mark(): a function of the executable, a convenient place for a breakpoint between operations
 // Operations on a library that is not loaded are skipped. Deterministic: no input besides argv, no time, no randomness.
+#[allow(unused_imports)]
 use std::ffi::{c_char, c_int, c_void};
 
 #[cfg(dl)]
@@ -25,6 +27,17 @@ unsafe extern "C" {
     fn c18_shared(v: u64) -> u64;
 }
 
+#[cfg(startup2)]
+#[link(name = "c18a")]
+unsafe extern "C" {
+    fn c18a_add(a: u64, b: u64) -> u64;
+}
+#[cfg(startup2)]
+#[link(name = "c18b")]
+unsafe extern "C" {
+    fn c18b_mul(a: u64, b: u64) -> u64;
+}
+
 static mut ACC: u64 = 0;
 static mut MARKS: u64 = 0;
 
@@ -33,12 +46,14 @@ fn c18_mark() {
     unsafe { MARKS += 1 };
 }
 
+#[allow(dead_code)]
 #[inline(never)]
 fn c18_own(x: u64) -> u64 {
     let y = x.wrapping_mul(7);
     y.wrapping_add(3)
 }
 
+#[allow(dead_code)]
 #[inline(never)]
 extern "C" fn c18_callback(v: u64) -> u64 {
     let seen_in_callback = v.wrapping_add(1000);
@@ -68,6 +83,15 @@ fn run() {
     acc(unsafe { c18_shared(9) });
     c18_mark();
     acc(c18_own(5));
+    c18_mark();
+}
+
+#[cfg(startup2)]
+fn run() {
+    c18_mark();
+    acc(unsafe { c18a_add(2, 3) });
+    c18_mark();
+    acc(unsafe { c18b_mul(4, 5) });
     c18_mark();
 }
 
